@@ -17,7 +17,7 @@ pub fn meta() -> Meta {
     Meta {
         id: "C20",
         level: "exploration",
-        rule: "(1) counting and table: read pairs with an exactly designed multiplicity histogram (for each designed (count c, n k-mers) a unique segment of n+k-1 letters is read c times, copies alternating between the two files and the two orientations) — every design from a family that puts 49/50/51 k-mers on the last bucket, leaves empty buckets inside, reaches counts 1..12, long tables (a segment seen 250 / 600 / exactly 1000 times, and segments seen 1001 and 1200 times, which the table must not list), and one made of reads of exactly k letters, of k+1 letters and of reads too short to hold a k-mer — plus tilings of a genome with substitution errors and N runs; FASTQ files with an odd number of reads are written with CRLF line ends; k in {7,31,33} (thorough: + 15, 21, 63) x both strand modes; the real CoverageHistogram::new + fit_histogram (hook: truncated counts, per-k-mer multiplicities) and the `ska cov` CLI table are compared with the model's multiplicity of every distinct split k-mer. (2) cutoff rule: hooked find_cutoff on the grid w0 in {0.01,0.05..0.95,0.99} x c in {1,1.5,2,3,5,10,20,40,80} x every table length 1..100 (thorough 1..400) against an independent closed form; end to end the printed cutoff equals that function of the fitted parameters and 'Error' labels exactly the counts below it. (3) likelihood/gradient identity on the basis: every unit histogram e_i (i=1..120 plus 150,172,200,244,300,400,600,999; thorough 1..400 plus those) x 19 w0 (thorough 99) plus 20 weights within 5e-3 of 0 or 1 (1e-8 .. 5e-3 and their mirrors) x 12 c (thorough 71): hooked log_likelihood equals the two-Poisson mixture computed independently, hooked grad_ll equals its closed-form derivative (1e-9 relative) and the central difference of the real log_likelihood (1e-5); linearity is checked on composite histograms. Non-trivial = every grid point / designed read set.".into(),
+        rule: "(1) counting and table: read pairs with an exactly designed multiplicity histogram (for each designed (count c, n k-mers) a unique segment of n+k-1 letters is read c times, copies alternating between the two files and the two orientations) — every design from a family that puts 49/50/51 k-mers on the last bucket, leaves empty buckets inside, reaches counts 1..12, long tables (a segment seen 250 / 600 / exactly 1000 times, and segments seen 1001 and 1200 times, which the table must not list), and one made of reads of exactly k letters, of k+1 letters and of reads too short to hold a k-mer — histograms that are themselves a two-Poisson mixture of 30 000 k-mers (w0 in {0.8,0.9,0.93,0.95,0.97} x c in {3.5,4.3,4.85,5.5,6.5,8}: high error weight, low coverage, so that fits occur whose components cross above the fitted coverage), plus tilings of a genome with substitution errors and N runs; FASTQ files with an odd number of reads are written with CRLF line ends; k in {7,31,33} (thorough: + 15, 21, 63) x both strand modes; the real CoverageHistogram::new + fit_histogram (hook: truncated counts, per-k-mer multiplicities) and the `ska cov` CLI table are compared with the model's multiplicity of every distinct split k-mer. (2) cutoff rule: hooked find_cutoff on the grid w0 in {0.01,0.05..0.95,0.99} x c in {1,1.5,2,3,5,10,20,40,80} x every table length 1..100 (thorough 1..400) against an independent closed form; end to end the printed cutoff equals that function of the fitted parameters and 'Error' labels exactly the counts below it. (3) likelihood/gradient identity on the basis: every unit histogram e_i (i=1..120 plus 150,172,200,244,300,400,600,999; thorough 1..400 plus those) x 19 w0 (thorough 99) plus 20 weights within 5e-3 of 0 or 1 (1e-8 .. 5e-3 and their mirrors) x 12 c (thorough 71): hooked log_likelihood equals the two-Poisson mixture computed independently, hooked grad_ll equals its closed-form derivative (1e-9 relative) and the central difference of the real log_likelihood (1e-5); linearity is checked on composite histograms. Non-trivial = every grid point / designed read set.".into(),
         assumptions: vec![
             "likelihood and gradient are linear in the histogram, so the unit histograms form a basis (checked on composites)".into(),
             "grid points within 1e-9 of a tie of the two components accept either neighbouring cutoff".into(),
@@ -89,6 +89,9 @@ fn fastq(reads: &Reads) -> Vec<u8> {
 }
 
 /// Reads realising a designed histogram: (count, number of distinct k-mers)
+/// fits whose components cross above the fitted coverage (floor(c) < cutoff < table length), for the evidence
+static CROSSING_ABOVE_C: std::sync::atomic::AtomicU64 = std::sync::atomic::AtomicU64::new(0);
+
 fn designed_reads(design: &[(usize, usize)], k: usize, seed: u64) -> [Reads; 2] {
     let total: usize = design.iter().map(|(_, n)| n + k).sum::<usize>() + k;
     let g = repeat_free(total, k, 0, seed);
@@ -181,8 +184,14 @@ fn check_readset(files: &[Reads; 2], k: usize, rc: bool, with_cli: bool) -> Resu
     if out.counts != table {
         return Err(format!("table after truncation has {} rows {:?}…, expected {} rows {:?}… (rows up to the last count shared by >= 50 k-mers)", out.counts.len(), &out.counts[..out.counts.len().min(8)], table.len(), &table[..table.len().min(8)]));
     }
+    if std::env::var("VERIF_DUMP").is_ok() {
+        eprintln!("C20 fit k={k} rc={rc}: ok={} w0={:.4} c={:.3} cutoff={} rows={}", out.fit_ok, out.w0, out.c, out.cutoff, out.counts.len());
+    }
     if out.fit_ok {
         let (want, tie) = model_cutoff(out.w0, out.c, out.counts.len());
+        if want as f64 > out.c.floor() && want < out.counts.len() {
+            CROSSING_ABOVE_C.fetch_add(1, std::sync::atomic::Ordering::Relaxed);
+        }
         if out.cutoff != want && !(tie && out.cutoff.abs_diff(want) <= 1) {
             return Err(format!("cutoff {} but the fitted parameters w0={} c={} define {want}", out.cutoff, out.w0, out.c));
         }
@@ -389,6 +398,16 @@ pub fn run(ctx: &Ctx, rep: &mut Report) {
             exact.extend(std::iter::repeat((2usize, 2usize)).take(30));
             designs.push(exact);
             let short_design = designs.len() - 1;
+            // histograms that ARE a two-Poisson mixture (30 000 split k-mers): high error weight x low coverage, so that
+            // the fit lands where the components cross at or above the fitted coverage
+            if k >= 31 {
+                for w0 in [0.8f64, 0.9, 0.93, 0.95, 0.97] {
+                    for c in [3.5f64, 4.3, 4.85, 5.5, 6.5, 8.0] {
+                        let des: Vec<(usize, usize)> = (1..=40usize).map(|i| (i, (30000.0 * ln_mix(w0, c, i).exp()).round() as usize)).filter(|(_, n)| *n > 0).collect();
+                        designs.push(des);
+                    }
+                }
+            }
             for (di, des) in designs.iter().enumerate() {
                 idx += 1;
                 if !ctx.mine(idx) {
@@ -417,7 +436,11 @@ pub fn run(ctx: &Ctx, rep: &mut Report) {
                 if des.iter().any(|(_, n)| *n == 49) {
                     rep.corner("bucket_of_49_kmers");
                 }
-                match check_readset(&files, k, rc, di % 2 == 0 || thorough) {
+                let verdict = check_readset(&files, k, rc, di % 2 == 0 || thorough);
+                if CROSSING_ABOVE_C.swap(0, std::sync::atomic::Ordering::Relaxed) > 0 {
+                    rep.corner("fit_whose_components_cross_above_the_fitted_coverage");
+                }
+                match verdict {
                     Ok(_) => {}
                     Err(e) => rep.violate(format!("designed k={k} rc={rc} design={des:?}"), format!("k={k} rc={rc} designed histogram {des:?}: {e}"), json!({"part": "table", "k": k, "rc": rc, "design": des})),
                 }
